@@ -109,6 +109,8 @@ def run(ctx, acts, api):
             d["extra"]["per_action"] = {"builds": d["evaluations"]}
         else:
             d = vlib.harness(ctx, "layers_drive", [trace, str(hist), str(ev), mode])
+            for m in d["mismatches"]:
+                ctx.violation(m["signature"], m["detail"], m["case"], "layers_drive")
         rej = validate_trace(ctx, trace, f"trace-{mode}")
         lines = open(trace).read().splitlines()
         if rej:
